@@ -36,6 +36,7 @@ typedef struct {
 	uint32_t nsub; const uint32_t *sub;   /* ESIs in submission order (may repeat); for api 1 the set */
 	int snap_every;     /* 1 = observe after every call */
 	int reenter;        /* the decoded-source callback runs a complete decoding session of another block before it returns */
+	int cb_early;       /* of_set_callback_functions right after of_create_codec_instance, before of_set_fec_parameters */
 	int dupcopy;        /* a repeated ESI is submitted from a different buffer holding the same bytes (a network duplicate) */
 } hist_t;
 
